@@ -273,7 +273,7 @@ def run(ctx):
             # bits and isotropic halving of every axis between the levels compared
             sizes = [sc["size"] for sc in infoA["scales"]]
             res = [sc["resolution"] for sc in infoA["scales"]]
-            L0 = next((i for i, sz in enumerate(sizes) if sz[0] * sz[1] * sz[2] <= 250000), None)
+            L0 = next((i for i, sz in enumerate(sizes) if sz[0] * sz[1] * sz[2] <= 700000), None)
             meth = _resolved(infoA)
             facs = [[int(round(res[i + 1][a] / res[i][a])) for a in range(3)] for i in range(nscales - 1)]
             regular = all(f in (1, 2) for fl in facs for f in fl) and all(
